@@ -236,7 +236,7 @@ func Gen(t *rapid.T) Case {
 		c.MediaType = rapid.SampledFrom(producerTypes).Draw(t, "mt")
 		c.Value = genValue(t, c.MediaType)
 	case 4, 5:
-		c.Kind = rapid.SampledFrom([]string{"reader", "reader", "buffer", "bytesreader", "seekreader"}).Draw(t, "readerkind")
+		c.Kind = rapid.SampledFrom([]string{"reader", "reader", "buffer", "bytesreader", "seekreader", "osfile"}).Draw(t, "readerkind")
 	case 6:
 		c.Kind = rapid.SampledFrom([]string{"readcloser", "readcloser", "seekreadcloser"}).Draw(t, "closerkind")
 	case 7, 8:
@@ -257,7 +257,7 @@ func Gen(t *rapid.T) Case {
 		c.Overlap = rapid.IntRange(0, 2).Draw(t, "overlap") == 0
 		c.PresetCT = rapid.SampledFrom([]string{"", "", "", "application/json", "text/plain", "multipart/form-data", "application/x-www-form-urlencoded"}).Draw(t, "presetct")
 	}
-	if c.Kind == "reader" || c.Kind == "readcloser" || c.Kind == "buffer" || c.Kind == "bytesreader" || c.Kind == "seekreader" || c.Kind == "seekreadcloser" {
+	if c.Kind == "reader" || c.Kind == "readcloser" || c.Kind == "buffer" || c.Kind == "bytesreader" || c.Kind == "osfile" || c.Kind == "seekreader" || c.Kind == "seekreadcloser" {
 		c.MediaType = rapid.SampledFrom([]string{"application/octet-stream", "application/octet-stream", "application/json", "text/plain", mtStampA, mtMultipart, mtURLEncoded}).Draw(t, "mt")
 		c.Body = &Blob{Data: genContent(t), Script: genScript(t)}
 		if rapid.IntRange(0, 3).Draw(t, "partly-consumed") == 0 {
